@@ -9,7 +9,7 @@ CONSTANTS
   MaxOps = 1000
   MaxRetry = 1
   Stale = FALSE
-  Outcomes = {"sent", "wip", "ref"}
+  Outcomes = {"sent", "wip", "ref", "hc"}
   MppRetry = {0, 1}
   Bug = "none"
 CONSTRAINT Bound
